@@ -1032,6 +1032,8 @@ const RT = {
   },
   fround(v) {
     if (!isSym(v)) return Math.fround(v);
+    // every integer of magnitude <= 2^24 is a float32: rounding leaves it unchanged (and it stays an exact integer for the engine)
+    if (v instanceof SNum && v.k === 'i' && !v.nan && v.lo >= -(1n << 24n) && v.hi <= (1n << 24n)) return v;
     const x = this.asF(v);
     return this.F('((_ to_fp 11 53) RNE ((_ to_fp 8 24) RNE ' + x + '))');
   },
